@@ -203,7 +203,11 @@ func (w *World) Drain(max int) bool {
 func (w *World) Crash(i int, keepTag bool) {
 	p := w.P[i]
 	if keepTag {
-		p.Cfg.Tag = p.Conv.GetOurInstanceTag()
+		if p.Ref != nil {
+			p.Cfg.Tag = p.Ref.OurTag
+		} else {
+			p.Cfg.Tag = p.Conv.GetOurInstanceTag()
+		}
 	} else {
 		p.Cfg.Tag = 0
 	}
